@@ -6,6 +6,7 @@ import (
 	"fmt"
 	"os"
 	"path/filepath"
+	"strings"
 	"sync"
 	"sync/atomic"
 	"syscall"
@@ -366,10 +367,28 @@ func genSweepShared(t *testing.T) {
 	if work == "" {
 		return
 	}
-	input := []string{"kiwi", "fig", "plum", "Plum", "pear", "kiwi", "lime", "Lime", "date", "fig", "fig", "yuzu", "pear", "plum", "kiwi", "date", "Date"}
-	wl, err := spg.NewWordList(input)
-	if err != nil {
-		ev.Inconclusive(err.Error())
+	// 8 distinct entries (one map bucket), 7 words after normalisation, 17 entries in all
+	input := []string{"kiwi", "fig", "plum", "Plum", "pear", "kiwi", "lime", "date", "fig", "fig", "yuzu", "pear", "plum", "kiwi", "date", "yuzu", "lime"}
+	// Every worker process builds its own list object and the library keeps
+	// the words in map-iteration order. The histograms of the workers can only
+	// be added up if all of them use the same index-to-word order: rebuild
+	// until the list starts with "date", then compare an order hash through
+	// the shared file (a mismatch is inconclusive, never a violation).
+	var wl *spg.WordList
+	var order []string
+	for try := 0; try < 400; try++ {
+		l, err := spg.NewWordList(append([]string{}, input...))
+		if err != nil {
+			ev.Inconclusive(err.Error())
+			return
+		}
+		if o := readOrder(l); len(o) > 0 && o[0] == "date" {
+			wl, order = l, o
+			break
+		}
+	}
+	if wl == nil {
+		ev.Inconclusive("generator-level sweep: could not obtain a canonical list order")
 		return
 	}
 	kept := []string{"date", "fig", "kiwi", "lime", "pear", "plum", "yuzu"} // reference normalisation, sorted
@@ -396,6 +415,13 @@ func genSweepShared(t *testing.T) {
 	defer syscall.Munmap(mem)
 	hdr := (*[8]uint64)(unsafe.Pointer(&mem[0]))
 	shared := unsafe.Slice((*uint64)(unsafe.Pointer(&mem[64])), n)
+	oh := ev.HashString(strings.Join(order, "|")) | 1
+	if !atomic.CompareAndSwapUint64(&hdr[4], 0, oh) && atomic.LoadUint64(&hdr[4]) != oh {
+		atomic.AddUint64(&hdr[3], 1)
+		atomic.AddUint64(&hdr[0], 1)
+		ev.Inconclusive("generator-level sweep: worker processes hold the list in different orders")
+		return
+	}
 	c, _, cerr := findCont(n)
 	if cerr != nil {
 		ev.Inconclusive(cerr.Error())
@@ -464,7 +490,7 @@ func genSweepShared(t *testing.T) {
 	if done := atomic.AddUint64(&hdr[0], 1); done == uint64(N) && atomic.LoadUint64(&hdr[3]) == 0 {
 		err := checkCounts(n, hdr[1], hdr[2], func(i uint32) uint64 { return shared[i] })
 		if err != nil {
-			msg := "one-word generation from a 17-entry list (7 distinct words after normalisation), all 2^32 first words: " + err.Error()
+			msg := fmt.Sprintf("one-word generation from a 17-entry list (7 distinct words after normalisation), all 2^32 first words: %v (histogram %v, rejected %d)", err, shared, hdr[2])
 			ev.AddViolation("c01_generator_sweep", c01Sweep{n}, msg)
 			t.Errorf("%s", msg)
 		} else {
@@ -682,6 +708,16 @@ func TestC01(t *testing.T) {
 	if !requireHooks(t) {
 		return
 	}
+	part := func(name string) bool { // VERIF_C01_PARTS=a,b restricts the run (used when testing the machinery)
+		v := os.Getenv("VERIF_C01_PARTS")
+		return v == "" || strings.Contains(","+v+",", ","+name+",")
+	}
+	if part("gensweep") && ev.Thorough() && ev.Cfg.Replay == "" {
+		genSweepShared(t)
+	}
+	if !part("sampled") {
+		return
+	}
 	ev.Check(t, "c01_sampled", ev.N(40000, 2000000), c01Gen, c01Run)
 	ev.Check(t, "c01_concurrent", ev.N(160, 3200), func(t *rapid.T) c01Conc {
 		pick := func(l string) uint32 {
@@ -721,9 +757,6 @@ func TestC01(t *testing.T) {
 			ev.Sample("c01_sweep", 64, map[string]interface{}{"bound": c.N, "mode": "single process"})
 			return nil
 		})
-	}
-	if ev.Thorough() {
-		genSweepShared(t)
 	}
 	ev.Note("sweep_wall_s", fmt.Sprintf("%.1f", time.Since(start).Seconds()))
 	ev.Note("swept_bounds", fmt.Sprint(shared, solo))
